@@ -296,7 +296,7 @@ def module(t, body, nvals):
     if NOISE[0] is not None and not getattr(t, '_noised', False):
         t._noised = True
         add_noise(t, NOISE[0][1], NOISE[0][0])
-    ty = ('pub mod ty {\n    #![deny(warnings)]\n    #![allow(dead_code, unused_imports, non_snake_case)]\n    use crate::support::{A, B, C, N, Fl, Good, Bad, Half, g_clone, g_default, g_into, m_eq, m_eqv, m_cmp, m_pcmp, m_hash, m_fmt, m_clone, m_clone_c, m_into, m_same, Mk, g_eq, g_cmp, g_pcmp, g_hash, g_fmt};\n'
+    ty = ('pub mod ty {\n    #![deny(warnings)]\n    #![allow(dead_code, unused_imports, non_snake_case)]\n    use crate::support::{A, B, C, N, Fl, Off, Good, Bad, Half, g_clone, g_default, g_into, m_eq, m_eqv, m_cmp, m_pcmp, m_hash, m_fmt, m_clone, m_clone_c, m_into, m_same, Mk, g_eq, g_cmp, g_pcmp, g_hash, g_fmt};\n'
           '    use educe::Educe;\n%s%s\n}\npub use ty::T;' % (HOSTILE_ITEMS if HOSTILE[0] else '', type_decl(t)))
     return ('// %s\n#![allow(dead_code, unused_variables, unused_mut, unused_imports, non_shorthand_field_patterns, clippy::all)]\n'
             'use crate::support::*;\nuse core::cmp::Ordering;\n%s\n%s\n' % (t.id, ty, body))
@@ -1022,7 +1022,7 @@ class UnionSuite(Suite):
     name = 'union'
     def make(self, r, tid):
         nf = pick(r, [1, 2, 3])
-        pool = [('u8', 1), ('u16', 2), ('[u8; 3]', 3), ('u32', 4), ('C<1>', 1), ('[u16; 2]', 4), ('u64', 8)]
+        pool = [('u8', 1), ('u16', 2), ('[u8; 3]', 3), ('u32', 4), ('C<1>', 1), ('[u16; 2]', 4), ('u64', 8), ('Off', 8), ('Off', 8)]
         fs = []
         for nm in r.sample(['a', 'b', 'c', 'x', 'state', 'f'], nf):
             ty, sz = pick(r, pool)
@@ -1053,7 +1053,7 @@ class UnionSuite(Suite):
             if nf > 1 or r.random() < 0.4:
                 fs[dfield].at['_metas'] = ['Default']
             uvals = {'u8': ('5', '5u8'), 'u16': ('300', '300u16'), 'u32': ('70000', '70000u32'), 'u64': ('9', '9u64'),
-                     'C<1>': ('C(2)', 'C::<1>(2)')}
+                     'C<1>': ('C(2)', 'C::<1>(2)'), 'Off': ('-5', '-5i64')}
             fs[dfield].dval = None
             if r.random() < 0.6 and fs[dfield].ft.rust in uvals:
                 val, exp = uvals[fs[dfield].ft.rust]
@@ -1123,7 +1123,10 @@ class BoundsSuite(Suite):
         params = ['X', 'Y', 'Z'][:nparams]
         def ftgen(r, i):
             p = pick(r, params)
-            return FT(pick(r, ['%s', '%s', 'Option<%s>' if trait != 'Default' else '%s']) % p, [])
+            forms = ['%s', '%s', 'Option<%s>' if trait != 'Default' else '%s']
+            if trait != 'Default':
+                forms.append("&'static %s")      # `&X: Clone / Copy` holds for every X; `&X: Debug / PartialEq / ...` iff X does
+            return FT(pick(r, forms) % p, [])
         kinds = ('struct',) if trait == 'Default' else ('struct', 'enum')
         t = gen_shape(r, tid, kinds=kinds, ftgen=ftgen, unit_ok=(trait not in ('Default',)), maxf=3)
         for v in t.variants:
@@ -1145,8 +1148,15 @@ class BoundsSuite(Suite):
                     f.at['_metas'] = [sp_method(r, trait, info['method'])]; deleg = False
                 elif info.get('expr') and c < 0.5:
                     f.at['_metas'] = [pick(r, ['Default(expression = %s)', 'Default(expr(%s))']) % info['expr']]; deleg = False
-                if deleg:
+                if deleg and not (f.ft.rust.startswith('&') and trait in ('Clone', 'Copy')):
                     needed.add(f.param)
+        if trait == 'Debug' and t.kind == 'enum':
+            # the display style of a variant does not change which fields are delegated
+            for v in t.variants:
+                if v.shape == 'unnamed' and v.fields and r.random() < 0.4:
+                    v.at['_metas'] = [pick(r, ['Debug(named_field = true)', 'Debug(named_field(true))'])]
+                elif v.shape == 'named' and v.fields and r.random() < 0.3:
+                    v.at['_metas'] = [pick(r, ['Debug(named_field = false)', 'Debug(named_field(false))'])]
         tparam = []
         if mode == 'auto' and r.random() < 0.3:
             tparam = [pick(r, ['bound = true', 'bound(true)'])]        # the automatic mode, written out
@@ -1162,9 +1172,10 @@ class BoundsSuite(Suite):
             preds = ', '.join('%s: %s' % (p, btrait) for p in want)
             tparam = [pick(r, ['bound(%s)', 'bound = "%s"']) % preds]; needed = set(want)
         t.type_attrs = ['%s(%s)' % (trait, ', '.join(tparam))] if tparam else [trait]
-        t.generic = params
+        refp = set(f.param for v in t.variants for f in v.fields if f.ft.rust.startswith('&'))
+        t.generic = [p_ + (": 'static" if p_ in refp else '') for p_ in params]
         g = ', '.join(params)
-        extra = [MANUAL_IMPL[m] % dict(g=g, a=g) for m in info.get('manual', [])]
+        extra = [MANUAL_IMPL[m] % dict(g=', '.join(t.generic), a=g) for m in info.get('manual', [])]
         checks = []
         # Half implements the weaker trait of each companion pair only: a bound on the stronger one shows
         strong = trait in ('Ord', 'Copy')      # a stand-alone Eq asks PartialEq of the field types (README: 'bound to the PartialEq trait')
